@@ -66,6 +66,7 @@ def run(rep: core.Report):
     _r20d(rep)
     _r20e(rep)
     _r20f(rep)
+    _r20g(rep)
 
 
 def _r20b(rep):
@@ -310,6 +311,45 @@ def _cp_numerical_value(fn, i, loop):
         raise AnalysisError(f"{QHA}::QHA._set_heat_capacity_P_numerical: construct outside the modelled fragment ({b})")
 
 
+def _r20g(rep):
+    """Temperature window: which rows are fitted and over which rows the finite differences run."""
+    rep.rule("R20g", "temperature window: the number of fitted temperatures is (index of the temperature closest to t_max) + 1, plus one more point for the finite differences (clipped to the number of temperatures given); every finite-difference loop runs over i = 1 .. num_elems - 2 so that i - 1 and i + 1 are fitted rows", 6)
+    gn = core.find_def(QHA, "QHA._get_num_elems")
+    tr = symalg.OpenPyTranslator(where="QHA._get_num_elems")
+    env = tr.summary(gn)
+    rets = [r for r in ast.walk(gn) if isinstance(r, ast.Return)]
+    tests = [n for n in gn.body if isinstance(n, ast.If)]
+    ok_gn = False
+    shown = "?"
+    if len(tests) == 1 and len(rets) == 2:
+        none_first = core.src(tests[0].test).replace(" ", "") == "self._t_maxisNone"
+        none_arm, val_arm = (tests[0].body, tests[0].orelse) if none_first else (tests[0].orelse, tests[0].body)
+        r_none = [r.value for st in none_arm for r in ast.walk(st) if isinstance(r, ast.Return)]
+        r_val = [r.value for st in val_arm for r in ast.walk(st) if isinstance(r, ast.Return)]
+        if len(r_none) == 1 and len(r_val) == 1:
+            got = tr.expr(r_val[0], env)
+            want = tr.expr(ast.parse("np.argmin(np.abs(temperatures - self._t_max)) + 1", mode="eval").body, {})
+            shown = f"t_max None: {core.src(r_none[0])}; else: {core.src(r_val[0])}"
+            ok_gn = symalg.same(got, want)[0] and core.src(r_none[0]) == "len(temperatures)" and core.src(tests[0].test).replace(" ", "") in ("self._t_maxisNone", "self._t_maxisnotNone")
+    rep.instance("R20g", QHA, "QHA._get_num_elems", shown, ok_gn,
+                 "the number of temperature points is not (index of the temperature closest to t_max) + 1 (all temperatures without t_max)", line=gn.lineno, obligation=True)
+    run = core.find_def(QHA, "QHA.run")
+    ne = [st for st in run.body if isinstance(st, ast.Assign) and core.src(st.targets[0]) == "num_elems"]
+    ok_ne = len(ne) == 1 and symalg.same(symalg.open_expr(core.src(ne[0].value)), symalg.open_expr("self._get_num_elems(self._all_temperatures) + 1"))[0]
+    rep.instance("R20g", QHA, "QHA.run", core.src(ne[0]) if ne else "<vanished>", ok_ne, "one extra temperature beyond t_max is not requested for the finite differences", line=run.lineno, obligation=True)
+    clip = [st for st in run.body if isinstance(st, ast.If) and "num_elems" in core.src(st.test)]
+    ok_clip = len(clip) == 1 and core.src(clip[0].test).replace(" ", "") in ("num_elems>len(self._all_temperatures)", "len(self._all_temperatures)<num_elems") and [core.src(x) for x in clip[0].body] in (["num_elems -= 1"], ["num_elems = len(self._all_temperatures)"]) and not clip[0].orelse
+    rep.instance("R20g", QHA, "QHA.run", core.norm(core.src(clip[0]), 70) if clip else "<no clipping>", ok_clip, "the number of fitted temperatures is not clipped to the temperatures given", line=run.lineno, obligation=True)
+    fl = [lp for lp in run.body if isinstance(lp, ast.For)]
+    ok_fl = len(fl) == 1 and core.src(fl[0].iter).replace(" ", "") == "range(num_elems)"
+    rep.instance("R20g", QHA, "QHA.run", f"fit loop {core.src(fl[0].iter) if fl else '?'}", ok_fl, "the fit does not run over the first num_elems temperatures", line=run.lineno, obligation=True)
+    for qn in ("_set_thermal_expansion", "_set_heat_capacity_P_numerical", "_set_heat_capacity_P_polyfit", "_set_gruneisen_parameter"):
+        fn = core.find_def(QHA, f"QHA.{qn}")
+        v, loop = _loopvar(fn, f"QHA.{qn}")
+        ok, how = symalg.same(symalg.open_expr(core.src(loop.iter)), symalg.open_expr("range(1, self._num_elems - 1)"))
+        rep.instance("R20g", QHA, f"QHA.{qn}", core.src(loop.iter), ok, f"loop bounds allow {v}-1 or {v}+1 to leave the fitted rows, or skip rows ({how})", line=loop.lineno, obligation=True)
+
+
 def _r20f(rep):
     te = core.find_def(QHA, "QHA._set_thermal_expansion")
     i, loop = _loopvar(te, "QHA._set_thermal_expansion")
@@ -389,4 +429,7 @@ def selftest():
     n("thermal expansion with renamed locals", QHA, "            dt = self._temperatures[i + 1] - self._temperatures[i - 1]\n            dv = self._equiv_volumes[i + 1] - self._equiv_volumes[i - 1]\n            beta.append(dv / dt / self._equiv_volumes[i])", "            d_temp = self._temperatures[i + 1] - self._temperatures[i - 1]\n            d_vol = self._equiv_volumes[i + 1] - self._equiv_volumes[i - 1]\n            beta.append(d_vol / (d_temp * self._equiv_volumes[i]))")
     b("Cp by a second difference that assumes equal steps", QHA, '            parameters = np.polyfit(\n                self._temperatures[i - 1 : i + 2], g[i - 1 : i + 2], 2\n            )\n            cp.append(-(2 * parameters[0]) * t)\n', '            dt_m = t - self._temperatures[i - 1]\n            dt_p = self._temperatures[i + 1] - t\n            d2g = (g[i + 1] - 2 * g[i] + g[i - 1]) / (dt_m * dt_p)\n            cp.append(-t * d2g)\n', "R20f", "_set_heat_capacity_P_numerical")
     n("Cp by the exact three-point second difference", QHA, '            parameters = np.polyfit(\n                self._temperatures[i - 1 : i + 2], g[i - 1 : i + 2], 2\n            )\n            cp.append(-(2 * parameters[0]) * t)\n', '            dt_m = t - self._temperatures[i - 1]\n            dt_p = self._temperatures[i + 1] - t\n            d2g = 2 * ((g[i + 1] - g[i]) / dt_p - (g[i] - g[i - 1]) / dt_m) / (dt_m + dt_p)\n            cp.append(-t * d2g)\n')
+    b("one temperature too few is fitted", QHA, "        num_elems = self._get_num_elems(self._all_temperatures) + 1", "        num_elems = self._get_num_elems(self._all_temperatures) - 1", "R20g", "QHA.run")
+    b("heat capacity loop overruns the fitted rows", QHA, "        for i in range(1, self._num_elems - 1):\n            t = self._temperatures[i]\n            parameters = np.polyfit(", "        for i in range(1, self._num_elems + 1):\n            t = self._temperatures[i]\n            parameters = np.polyfit(", "R20g", "_set_heat_capacity_P_numerical")
+    b("t_max index off by one", QHA, "            return i + 1", "            return i - 1", "R20g", "_get_num_elems")
     return V
